@@ -77,6 +77,8 @@ pub struct ExecResult {
     pub observation: u64,
     pub transitions: u64,
     pub bad_choice: bool,
+    /// All violations were found by the end-of-history oracles (the history itself ran clean).
+    pub end_only: bool,
 }
 
 thread_local! {
@@ -149,6 +151,7 @@ pub fn exec<W: World>(mk: &dyn Fn() -> W, prop: &str, choices: &[usize]) -> Exec
                 observation: 0,
                 transitions,
                 bad_choice,
+                end_only: false,
             };
         }
     };
@@ -176,6 +179,7 @@ pub fn exec<W: World>(mk: &dyn Fn() -> W, prop: &str, choices: &[usize]) -> Exec
     let mut enabled = Vec::new();
     let mut key = 0;
     let mut observation = 0;
+    let mut end_only = false;
     if panicked {
         // The world is in an unknown state: don't run its destructors.
         std::mem::forget(world);
@@ -192,7 +196,10 @@ pub fn exec<W: World>(mk: &dyn Fn() -> W, prop: &str, choices: &[usize]) -> Exec
         key = world.key();
         observation = world.observation();
         match catch_unwind(AssertUnwindSafe(|| world.finish())) {
-            Ok(v) => violations.extend(v),
+            Ok(v) => {
+                end_only = true;
+                violations.extend(v)
+            }
             Err(_) => {
                 let msg = take_panic();
                 violations.push(Violation::new(prop, &format!("panic/epilogue/{}", panic_class(&msg)), &format!("a10 panicked in the epilogue: {msg}")));
@@ -201,7 +208,7 @@ pub fn exec<W: World>(mk: &dyn Fn() -> W, prop: &str, choices: &[usize]) -> Exec
             }
         }
     }
-    ExecResult { violations, history, enabled, key, observation, transitions, bad_choice }
+    ExecResult { violations, history, enabled, key, observation, transitions, bad_choice, end_only }
 }
 
 fn shard_of(choices: &[usize], n: usize) -> usize {
@@ -265,6 +272,7 @@ fn dfs<W: World>(
         }
     }
     if !r.violations.is_empty() {
+        let found_here = r.violations.clone();
         if mine {
             for v in r.violations {
                 if !stats.found.iter().any(|f| f.violation.sig == v.sig && f.violation.prop == v.prop) {
@@ -272,7 +280,13 @@ fn dfs<W: World>(
                 }
             }
         }
-        return;
+        // Known findings raised only by the end-of-history oracles don't
+        // stop the search below this node.
+        let known = crate::report::known_list();
+        let all_known_at_end = r.end_only && found_here.iter().all(|v| crate::report::is_known(&known, v).is_some());
+        if !all_known_at_end {
+            return;
+        }
     }
     if depth >= b.depth {
         return;
